@@ -9,7 +9,7 @@ EXPLANATION = (
     "the coroutine finished; terminal: every begun callback completed, end cb exactly once, cancel cb once iff cancelled."
 )
 ASSUMPTIONS = ["bounds: <= 3 requests, <= 6 tasks, sizes {1,2,inf}"]
-BUDGET = {"quick": 150, "thorough": 2400}
+BUDGET = {"quick": 150, "thorough": 900}
 MON = ["C03"]
 
 
